@@ -329,6 +329,7 @@ class Interp:
         self.patterns: dict = {}
         self.recording = True
         self.called: set[str] = set()
+        self.lost_patterns: list[str] = []
 
     # ------------------------------------------------------------------ heap
     def node(self, key, make):
@@ -1762,8 +1763,10 @@ class Interp:
             if isinstance(c.v, str) and fl is not None:
                 key = ("pattern", c.v, fl)
                 out.append(self.node(key, lambda c=c, fl=fl: Pattern(("pattern", c.v, fl), c.v, fl)))
-        if av.top:
+        if av.top or (not out and not av.bottom):
             self.unknown_value("pattern text not constant")
+            if self.recording:
+                self.lost_patterns.append(norm(e, 80))
         for p in out:
             self.patterns[p.key] = p
         return out
@@ -1812,8 +1815,23 @@ class Interp:
                 outs.append(ref(s))
         return join(*outs)
 
+    @staticmethod
+    def as_const(av: AV) -> AV:
+        """A list / tuple display whose items are all known constants, as a constant tuple."""
+        if len(av.refs) == 1 and not av.consts and not av.top:
+            n = next(iter(av.refs))
+            if isinstance(n, Seq) and n.items is not None and n._elem.bottom and n.kind in ("list", "tuple") and all(i.concrete for i in n.items):
+                k = 1
+                for i in n.items:
+                    k *= len(i.consts)
+                if k <= MAXC:
+                    return consts(tuple(c) for c in itertools.product(*[i.values() for i in n.items]))
+        return av
+
     def fold_scalar(self, recv: AV, meth: str, args: list[AV], kwargs: dict) -> AV | None:
         """Result of a pure str / tuple / match method when receiver and arguments are known constants, else None."""
+        args = [self.as_const(a) for a in args]
+        kwargs = {k: self.as_const(v) for k, v in kwargs.items()}
         if not recv.concrete or not all(a.concrete for a in args) or not all(a.concrete for a in kwargs.values()):
             return None
         n = len(recv.consts)
